@@ -9,9 +9,18 @@
    `chrom_segs m ...` is what the per-arm methods (m = MNone, MHaar; cbs shares
    the same transfer_fields) report on the chromosome; `chrom_hmm_segs a b c`
    is what the whole-table (hmm, hmm-tumor, hmm-germline) methods report on chromosome c, a / b telling
-   whether c is the table's first / last chromosome (hmm_table_rows). *)
+   whether c is the table's first / last chromosome (hmm_table_rows).
+
+   Second layer (the code's own path; what the entry points run): `*_code` are the same
+   tables with the aggregation step going through the C07 model of iter_slices
+   (C03_code_path: equal, by the imported C07_slices); `arm_full baf c am fl variants` is
+   _do_segmentation on one arm -- am = AGiven m bps (breakpoints as oracle) or AHaar .. os
+   (haar computed by the C11 core from the oracles os), variants = the `variants=` data
+   (variant rows, HMM state paths); `table_segs baf p assign tm tbl` is do_segmentation
+   with p processes.  C03_arm_given / C03_haar_arm tie arm_full back to arm_segs, so the
+   first-layer theorems speak about what the second layer computes. *)
 From CNV Require Import Base.Prelude Base.Str Model.Arms Model.Segment Spec.Segments
-  Proofs.SegFields Proofs.SegChrom Proofs.SegProps Gen.Params Gen.SegDefaults.
+  Proofs.SegFields Proofs.SegChrom Proofs.SegProps Proofs.SegSlices Proofs.SegByArm Proofs.SegParallel Proofs.SegVariants Proofs.SegHaar Proofs.SegTable Gen.Params Gen.SegDefaults.
 
 (* ---- per-arm methods: none, haar (cbs) ------------------------------------- *)
 
@@ -85,6 +94,246 @@ Theorem C03_hmm_log2_mean : forall skip_low min_weight name bins mask bps a b,
   Forall (log2_mean_ok (survivors (flag_bins skip_low min_weight bins mask)))
          (chrom_hmm_segs a b (mkChrom name (flag_bins skip_low min_weight bins mask) bps)).
 Proof. exact h_log2. Qed.
+
+(* ---- the aggregation step as the code runs it: imported from C07 ------------- *)
+
+(* transfer_fields asks iter_slices(cdata, segments.data, "outer", False) for the bins of
+   each segment row.  `slices` is that call on the C07 model (by_shared_chroms, idx_ranges,
+   numpy's binary search); by C07_slices -- used, not re-proved -- it yields, for the rows
+   of one piece, the input bins overlapping each row, rows without any dropped (`kept`:
+   unless keep_empty is set; the theorems below hold for either value of that flag).
+   Precondition beyond bins_wf: genomic coordinates (0 <= first start), which C07 needs
+   because a query start of 0 is read as "no start". *)
+Theorem C03_slices_are_overlaps : forall c bins (ranges : list (Z * Z)) e E,
+  bins_in e bins E -> 0 <= e ->
+  slices c bins ranges = filter kept (map (fun q => spanned bins (fst q) (snd q)) ranges).
+Proof. exact slices_spec. Qed.
+
+(* hence the table computed along the code's path (chrom_segs_code: what the model entry
+   points run and the correspondence compares) is the table of the theorems above ... *)
+Theorem C03_code_path : forall m skip_low min_weight bins mask bps,
+  bins_wf bins -> 0 <= span_lo bins ->
+  chrom_segs_code m (flag_bins skip_low min_weight bins mask) bps =
+  chrom_segs m (flag_bins skip_low min_weight bins mask) bps.
+Proof. exact p_code_path. Qed.
+
+(* ... and C03_fields holds of it: no row is left with the "-", 0, 0 placeholders, no row
+   gets a neighbour's selection *)
+Theorem C03_fields_code_path : forall m skip_low min_weight bins mask bps,
+  bins_wf bins -> 0 <= span_lo bins ->
+  Forall (fields_ok bins) (chrom_segs_code m (flag_bins skip_low min_weight bins mask) bps).
+Proof. exact p_fields_code. Qed.
+
+Theorem C03_hmm_code_path : forall skip_low min_weight name bins mask bps a b,
+  bins_wf bins -> 0 <= span_lo bins ->
+  chrom_hmm_segs_code a b (mkChrom name (flag_bins skip_low min_weight bins mask) bps) =
+  chrom_hmm_segs a b (mkChrom name (flag_bins skip_low min_weight bins mask) bps).
+Proof. exact h_code_path. Qed.
+
+Theorem C03_transfer_call_source : transfer_slices_mode = "outer"%string.
+Proof. reflexivity. Qed.
+
+(* ---- chromosome arms: GenomicArray.by_arm exactly ----------------------------- *)
+
+(* r is the code's int(round(0.1 * n)) (any integer here: the margin is max(50, r)).
+   The arms are the chromosome's rows in order, none empty, at most two; the chromosome is
+   split iff some gap keeping the margin to both ends is >= 100000 (i.e. iff the largest
+   interior gap is), and then in front of the first row carrying the largest interior gap. *)
+Theorem C03_arms : forall (A : Type) (lo hi : A -> Z) r l,
+  arms_spec lo hi r l (arm_split_with lo hi r l).
+Proof. exact @arm_split_spec. Qed.
+
+(* the arms the segmentation model uses are those for the exactly rounded share ... *)
+Theorem C03_chrom_arms : forall fl,
+  arms_spec fb_lo fb_hi (round_share (Z.of_nat (length fl))) fl (chrom_arms fl).
+Proof. intros fl. exact (arm_split_spec fb_lo fb_hi _ fl). Qed.
+
+(* ... which is a correctly rounded share (within 1/2 of n/10); away from n = 5 (mod 10)
+   there is no other, at the tie it is one of the two neighbours (which one the float
+   product 0.1 * n gives is the oracle's business), *)
+Theorem C03_share_exact : forall n, share_ok n (round_share n).
+Proof. exact round_share_ok. Qed.
+
+Theorem C03_share_unique : forall n r, share_ok n r -> n mod 10 <> 5 -> r = round_share n.
+Proof. exact share_unique. Qed.
+
+Theorem C03_share_tie : forall n r, share_ok n r -> n mod 10 = 5 -> r = n / 10 \/ r = n / 10 + 1.
+Proof. exact share_tie. Qed.
+
+(* and on chromosomes of at most 504 rows (the property's 1..400) the rounding is
+   immaterial: the margin is 50 *)
+Theorem C03_arms_any_rounding : forall (A : Type) (lo hi : A -> Z) l r,
+  share_ok (Z.of_nat (length l)) r -> Z.of_nat (length l) <= 504 ->
+  arm_split_with lo hi r l = arm_split lo hi l.
+Proof. exact @arm_split_small. Qed.
+
+Theorem C03_share_contract_source : forall n r, round_contract n r <-> share_ok n r.
+Proof. exact round_contract_literal. Qed.
+
+(* first-maximum tie-breaking, on a chromosome of 103 rows with two equal 100 kb gaps in
+   front of rows 51 and 52 (both interior): cut at 51 *)
+Example C03_ex_arms_tie :
+  let rows := map (fun i => let i := Z.of_nat i in
+                     let s := i * 1000 + (if 51 <=? i then 100000 else 0) + (if 52 <=? i then 100000 else 0) in
+                     (s, s + 900)) (seq 0 103) in
+  map (fun a => Z.of_nat (length a)) (arm_split fst snd rows) = [51; 52].
+Proof. vm_compute. reflexivity. Qed.
+
+(* ---- haar end to end: the breakpoints are the ones the C11 core computes -------- *)
+
+(* One haarSeg call (one piece s of an arm's survivors; o: the smoothed signal
+   cnarr.smooth_log2() of the piece and the FDR p-values -- oracles; weights: the piece's
+   own).  By C11_sizes (imported) the breakpoints are strictly increasing inside 1 .. n-2;
+   the table one_chrom builds has one row per index range [s, e) between them: from the
+   start of bin s to the end of bin e-1, probes e - s, and log2 = SegmentByPeaks' mean of
+   the signal over that range; and these are the rows of groups_of_breaks at those
+   breakpoints. *)
+Theorem C03_haar_piece : forall (su sw : Z -> Q) q s o,
+  s <> [] -> length (ho_signal o) = length s ->
+  let bps := piece_breaks su sw q s o in
+  let n := Z.of_nat (length s) in
+  Spec.Haar.ssorted bps /\ (forall b, In b bps -> 1 <= b <= n - 2) /\
+  haar_table s (haar_one su sw q s o) =
+    map (bound_row s (ho_signal o) (Some (map wt0 s))) (Model.Haar.seg_bounds 0 bps n) /\
+  map raw_coords (haar_table s (haar_one su sw q s o)) = map group_coords (groups_from 0 bps s).
+Proof. exact haar_piece_rows. Qed.
+
+(* that mean is the weight-averaged signal (plain mean if the weights in the range do not
+   sum to something positive) *)
+Theorem C03_haar_log2 : forall data w s e,
+  let d := Model.Haar.slice data s e in
+  let ws := Model.Haar.slice w s e in
+  ((0 < fold_right Qplus 0 ws)%Q ->
+     (Model.Haar.seg_mean data (Some w) s e == fold_right Qplus 0 (Model.Haar.qmul2 d ws) / fold_right Qplus 0 ws)%Q) /\
+  (~ (0 < fold_right Qplus 0 ws)%Q ->
+     (Model.Haar.seg_mean data (Some w) s e == fold_right Qplus 0 d / inject_Z (Z.of_nat (length d)))%Q).
+Proof. exact seg_mean_spec. Qed.
+
+(* segment_haar on the survivors of an arm (haar's own by_arm may cut them again): start,
+   end and probes of its rows are those of the survivors cut at haar_arm_bps -- every piece's
+   C11 breakpoints moved to the piece's offset, plus the piece boundaries *)
+Theorem C03_haar_table : forall (su sw : Z -> Q) q surv os,
+  oracle_fits (arm_split b_lo b_hi surv) os ->
+  map raw_coords (segment_haar su sw q surv os) =
+  map raw_coords (method_rows (AGiven MHaar (haar_arm_bps su sw q 0 (arm_split b_lo b_hi surv) os)) surv).
+Proof. exact haar_rows_spec. Qed.
+
+(* hence what _do_segmentation reports for the arm with method haar is, in every column but
+   log2, arm_segs at those breakpoints -- the object of C03_tiling / C03_accounting /
+   C03_arm_edges / C03_fields, which hold for every breakpoint list *)
+Theorem C03_haar_arm : forall (B : Type) (baf : Z -> Z -> B) c (su sw : Z -> Q) q os fl out,
+  bins_wf (map fst fl) -> 0 <= span_lo (map fst fl) ->
+  oracle_fits (arm_split b_lo b_hi (survivors fl)) os ->
+  arm_full baf c (AHaar su sw q os) fl None = Some out ->
+  map strip (map fst out) =
+  map strip (arm_segs MHaar fl (haar_arm_bps su sw q 0 (arm_split b_lo b_hi (survivors fl)) os)).
+Proof. exact @arm_full_haar. Qed.
+
+(* and with the breakpoints given (method none: no breakpoint) it is arm_segs itself *)
+Theorem C03_arm_given : forall (B : Type) (baf : Z -> Z -> B) c m bps fl out,
+  bins_wf (map fst fl) -> 0 <= span_lo (map fst fl) ->
+  arm_full baf c (AGiven m bps) fl None = Some out -> map fst out = arm_segs m fl bps.
+Proof. exact @arm_full_given. Qed.
+
+(* ---- `variants=` for the per-arm methods ------------------------------------------- *)
+
+(* hmm.variants_in_segment on one row w (vs: the variants overlapping it, states: the state
+   path of its allele-frequency HMM -- an oracle): the resulting rows tile w's own range
+   (first starts at w's start, each starts where its predecessor ends, the last ends at w's
+   end, all of positive length), carry w's log2, and are either w itself or one row per run
+   of equal states (>= 2 runs), `probes` being the number of VARIANTS in the run *)
+Theorem C03_variant_resplit : forall w vs states part,
+  resplit w vs states = Some part -> w_lo w < w_hi w ->
+  resplit_of w (map run_count (runs_of vs states)) part.
+Proof. exact resplit_spec. Qed.
+
+(* all rows of the arm: each method row is replaced, in order, by its own re-split *)
+Theorem C03_variant_parts : forall vars ws states rows,
+  resplit_all ws vars states = Some rows -> Forall (fun w => w_lo w < w_hi w) ws ->
+  exists parts, concat parts = rows /\ resplit_parts ws vars states parts.
+Proof. exact resplit_all_spec. Qed.
+
+(* the arm's report, any method, with or without variants (baf: the BAF of a range, an
+   oracle function): one reported row per row, in order; row i's baf is baf(range of row i)
+   -- the range it had when the baf column was written, i.e. before the edge stretch --;
+   the reported coordinates are the stretched ones, probes and log2 are carried over, and
+   gene / weight / depth are those of exactly the input bins the reported row overlaps
+   (fields_ok), also for a row that overlaps none: "-", 0, 0 *)
+Theorem C03_variant_rows : forall (B : Type) (baf : Z -> Z -> B) c am fl variants out,
+  bins_wf (map fst fl) -> 0 <= span_lo (map fst fl) ->
+  arm_full baf c am fl variants = Some out ->
+  exists rows, arm_rows am fl variants = Some rows /\
+    length out = length rows /\
+    map snd out = map (fun w => baf (w_lo w) (w_hi w)) rows /\
+    map fst out = map (fill_spanned (map fst fl)) (stretched (map fst fl) rows) /\
+    Forall2 carries (stretched (map fst fl) rows) (map fst out) /\
+    Forall (fields_ok (map fst fl)) (map fst out).
+Proof. exact @arm_full_spec. Qed.
+
+(* the call in the source keeps rows without bins in step (repaired in /repo 0138a18) *)
+Theorem C03_transfer_keeps_empty_source : transfer_slices_keep_empty = true.
+Proof. reflexivity. Qed.
+
+(* ---- processes: the table does not depend on the pool --------------------------------- *)
+
+(* concurrent.futures map with p workers and ANY assignment of the items to them: the
+   results in submission order *)
+Theorem C03_pool : forall (X Y : Type) (f : X -> Y) p assign xs,
+  (forall i, (i < length xs)%nat -> (assign i < p)%nat) -> pool_map f p assign xs = map f xs.
+Proof. exact @pool_map_spec. Qed.
+
+(* do_segmentation(..., processes = p) = the serial table, for every p >= 1 and every schedule *)
+Theorem C03_parallel : forall (B : Type) (baf : string -> Z -> Z -> B) p assign tm tbl,
+  (forall i, (i < length (table_jobs tm tbl))%nat -> (assign i < p)%nat) ->
+  table_segs baf p assign tm tbl = table_segs_serial baf tm tbl.
+Proof. exact @table_parallel. Qed.
+
+(* which is the (stably, by chromosome key, start, end) sorted concatenation, over the arms
+   in order, of the per-arm reports; the arms are those of every chromosome, in table order *)
+Theorem C03_table_shape : forall (B : Type) (baf : string -> Z -> Z -> B) tm tbl rows,
+  table_segs_serial baf tm tbl = Some rows ->
+  exists rets, Forall2 (fun j r => run_job baf j = Some r) (table_jobs tm tbl) rets /\
+               rows = concat_sorted rets.
+Proof. exact @table_serial_shape. Qed.
+
+Theorem C03_table_arms : forall tm tbl,
+  map aj_fl (table_jobs tm tbl) = flat_map (fun c => chrom_arms (cj_fl c)) tbl.
+Proof. exact table_jobs_arms. Qed.
+
+(* five items, three workers, a scrambled assignment *)
+Example C03_ex_pool :
+  pool_map (fun x => x * x) 3 (fun i => Nat.modulo (2 * i + 1) 3) [1; 2; 3; 4; 5] = [1; 4; 9; 16; 25].
+Proof. vm_compute. reflexivity. Qed.
+
+(* the regression input of /repo 0138a18 (corpus/c03.json): four bins around a wide gap,
+   60 variants in three allele-frequency runs, the middle run wholly inside the gap.
+   method none gives one row 0-62000, re-split at the midpoints 5880 and 54025; the middle
+   row overlaps no bin and reports "-", weight 0, depth 0; probes are the run sizes (20
+   variants each, although 4 bins survive); each row's baf is asked for its own range *)
+Definition ex_var_bins : list bin :=
+  [ mkBin 0 1000 "A" (1 # 10) (Some 1%Q) 10%Q; mkBin 1000 2000 "A" (1 # 10) (Some 1%Q) 10%Q;
+    mkBin 60000 61000 "B" (1 # 10) (Some 2%Q) 30%Q; mkBin 61000 62000 "B" (1 # 10) (Some 2%Q) 30%Q ]%string.
+Definition ex_var_rows : list vrow :=
+  map (fun i => let p := 50 + Z.of_nat i * 90 in (p, p + 1)) (seq 0 20) ++
+  map (fun i => let p := 10000 + Z.of_nat i * 2000 in (p, p + 1)) (seq 0 20) ++
+  map (fun i => let p := 60050 + Z.of_nat i * 90 in (p, p + 1)) (seq 0 20).
+Definition ex_var_states : list Z := repeat 0 20 ++ repeat 1 20 ++ repeat 0 20.
+
+Example C03_ex_variants :
+  option_map (map (fun x => (s_lo (fst x), s_hi (fst x), s_probes (fst x), s_gene (fst x), s_weight (fst x),
+                             s_depth (fst x), snd x)))
+    (arm_full (fun lo hi => (lo, hi)) "chr1" (AGiven MNone []) (flag_bins false 0 ex_var_bins [])
+              (Some (ex_var_rows, [ex_var_states]))) =
+  Some [ (0, 5880, 20, "A", Some (2 # 1), 10 # 1, (0, 5880));
+         (5880, 54025, 20, "-", Some (0 # 1), 0 # 1, (5880, 54025));
+         (54025, 62000, 20, "B", Some (4 # 1), 30 # 1, (54025, 62000)) ]%string.
+Proof. vm_compute. reflexivity. Qed.
+
+(* whole-table methods: the table along the code's path is the table of the theorems *)
+Theorem C03_hmm_table_code : forall tbl,
+  Forall (fun c => bins_wf (map fst (c_fl c)) /\ 0 <= span_lo (map fst (c_fl c))) tbl ->
+  hmm_table_code tbl = hmm_table tbl.
+Proof. intros tbl H. exact (hmm_rows_code_eq tbl true H). Qed.
 
 (* ---- the filters and the constants the model reads from /repo -------------- *)
 
